@@ -124,8 +124,14 @@ class World:
         azc = MagicMock(name="asynczeroconf")
         azc.zeroconf = zc
         self.cache = CharacteristicCacheMemory()
+        # pairing situation of an id: "none" | ("cached" | "nocache") ["-after"] ["-shut"]
+        #   cached / nocache : accessory state for the id is / is not in the characteristic cache
+        #   -after           : the pairing is loaded only after the first advertisement for the id was processed by
+        #                      that transport (default: loaded before any advertisement)
+        #   -shut            : pairing.shutdown() was called while it stays loaded in the controller
+        self.loaded = set()
         for idl, mode in self.pm.items():
-            if mode == "cached":
+            if mode.startswith("cached"):
                 self.cache.async_create_or_update_map(IDS[idl], 2, accessories_json(), self.bkey.hex(), 3)
 
         async def mk():
@@ -138,22 +144,46 @@ class World:
             agg.transports[TransportType.IP] = ip
             agg.transports[TransportType.COAP] = co
             agg.transports[TransportType.BLE] = ble
-            for idl, mode in self.pm.items():
-                if mode == "none":
-                    continue
-                base = {"AccessoryPairingID": IDS[idl], "AccessoryLTPK": "00" * 32, "iOSPairingId": "decc6fa3-de3e-41c9-adba-ef7409821bfc",
-                        "iOSDeviceLTSK": "11" * 32, "iOSDeviceLTPK": "22" * 32}
-                ip.load_pairing("ip" + idl, dict(base, Connection="IP", AccessoryIP="10.9.9.9", AccessoryIPs=["10.9.9.9"], AccessoryPort=5001))
-                co.load_pairing("co" + idl, dict(base, Connection="CoAP", AccessoryIP="10.9.9.9", AccessoryPort=5683))
-                ble.load_pairing("ble" + idl, dict(base, Connection="BLE", AccessoryAddress=IDS[idl].upper()))
             return ip, co, ble, agg
         self.ip, self.coap, self.ble, self.agg = self.loop.run_until_complete(mk())
         self.ctl = {"ip": self.ip, "coap": self.coap, "ble": self.ble}
+        for idl, mode in self.pm.items():
+            if mode != "none" and "-after" not in mode:
+                for tr in ("ip", "coap", "ble"):
+                    self._load_pairing(tr, idl)
         self._pending_info = {}
         for tr in ("ip", "coap"):
             self._wrap_mdns(tr)
         self.loop.settle()
         self.t0 = self.loop.time()
+
+    def _load_pairing(self, tr, idl):
+        """load the pairing for id on transport tr (and shut it down if the situation says so)"""
+        if (tr, idl) in self.loaded:
+            return
+        self.loaded.add((tr, idl))
+        mode = self.pm[idl]
+        base = {"AccessoryPairingID": IDS[idl], "AccessoryLTPK": "00" * 32, "iOSPairingId": "decc6fa3-de3e-41c9-adba-ef7409821bfc",
+                "iOSDeviceLTSK": "11" * 32, "iOSDeviceLTPK": "22" * 32}
+        pd = {"ip": dict(base, Connection="IP", AccessoryIP="10.9.9.9", AccessoryIPs=["10.9.9.9"], AccessoryPort=5001),
+              "coap": dict(base, Connection="CoAP", AccessoryIP="10.9.9.9", AccessoryPort=5683),
+              "ble": dict(base, Connection="BLE", AccessoryAddress=IDS[idl].upper())}[tr]
+
+        async def go():
+            p = self.ctl[tr].load_pairing(tr + idl, pd)
+            if "-shut" in mode:
+                await p.shutdown()
+        t = self.loop.time()
+        self.loop.run_until_complete(go())
+        self.loop.settle()
+        if self.loop.time() != t:
+            raise RuntimeError("loading / shutting down a pairing consumed virtual time")
+
+    def _late_load(self, tr, idl):
+        """situation "-after": the application loads the pairing once the transport has seen the accessory"""
+        mode = self.pm.get(idl, "none")
+        if "-after" in mode and (tr, idl) not in self.loaded and IDS[idl] in self.ctl[tr].discoveries:
+            self._load_pairing(tr, idl)
 
     # ------------------------------------------------------------------ time
     def now_ms(self):
@@ -369,6 +399,8 @@ class World:
                     raise RuntimeError(exc)
         if settle:
             self.settle()
+            for t in ("ip", "coap", "ble"):
+                self._late_load(t, idl)
 
     # ------------------------------------------------------------------ end
     def finish(self):
